@@ -11,6 +11,7 @@ import random
 
 from ..monitors import immut
 
+PYTHON_O_STRIDE = {"quick": 4, "thorough": 2}      # every n-th case is repeated in an interpreter started with -O
 RULE = ("(callable, arguments): every transformation (incl. Shuffle with explicit list arguments, compression with a graph) on "
         "family formulas and hand-built ones, chains of length 1-4; every family generator with cnfgen and networkx graph "
         "arguments; every list-taking API (Tseitin charges, bipartite_shift pattern, RandomKCNF/KXOR planted assignments, "
